@@ -39,6 +39,7 @@ RULE = (
     "render; then the k-th event of render r raises a private Exception, a private BaseException or a private subclass of ValueError / RuntimeError / OSError / ZeroDivisionError for every (r, k) "
     "(thorough) or a seeded sample (quick), plus histories with several faulted renders. Non-trivial = at least one fault "
     "fired and at least one clean render followed it; distinct = digest(program, history, fired faults)."
+    " Further fault classes (ValueError / RuntimeError / OSError / ArithmeticError subclasses, a class that forbids attribute assignment); NativeEnvironment; optional debug and i18n (newstyle, translating catalog) extensions; the sandbox's safety-marker probes are data events; one faulted history in 24 repeats the faulted render 120 times before clean renders of every entry point (soak)."
 )
 ASSUMPTIONS = [
     "the isolated reference render (fresh environment, fresh data, one render) of the same code is the oracle for clean renders",
@@ -72,6 +73,11 @@ def setup() -> None:
 
 
 DBG = [False]  # jinja2.ext.debug loaded (set per run)
+I18N = [False]  # jinja2.ext.i18n with newstyle gettext callables and a catalog that really translates
+
+
+def _tr(s):
+    return s.replace("text", "TEXT").replace("thing", "Ding")
 
 
 def _make_env(P, sandboxed, is_async, ae, lc):
@@ -83,9 +89,12 @@ def _make_env(P, sandboxed, is_async, ae, lc):
     cls = NativeEnvironment if sandboxed == 2 else SandboxedEnvironment if sandboxed else jinja2.Environment
     env = cls(
         loader=jinja2.DictLoader(P.templates), enable_async=is_async, autoescape=AE_MODES[ae],
-        extensions=(["jinja2.ext.loopcontrols"] if lc else []) + (["jinja2.ext.debug"] if DBG[0] else []),
-        bytecode_cache=CodeMemo(("c38", sandboxed, is_async, ae, lc, DBG[0])),
+        extensions=(["jinja2.ext.loopcontrols"] if lc else []) + (["jinja2.ext.debug"] if DBG[0] else [])
+        + (["jinja2.ext.i18n"] if I18N[0] else []),
+        bytecode_cache=CodeMemo(("c38", sandboxed, is_async, ae, lc, DBG[0], I18N[0])),
     )
+    if I18N[0]:
+        env.install_gettext_callables(_tr, lambda s, p, n: _tr(s if n == 1 else p), newstyle=True)
     gp = env.globals["gf"] = GlobalProbe()
 
     @jinja2.pass_context
@@ -191,9 +200,11 @@ def run(tape: Tape) -> Outcome:
     lc = bool(tape.draw(2))
     size = 2 + tape.draw(4)
     DBG[0] = tape.draw(6, "m") == 4
+    I18N[0] = tape.draw(5, "m") == 4
+    out.count("env_with_i18n_extension", 1 if I18N[0] else 0)
     out.count("env_with_debug_extension", 1 if DBG[0] else 0)
     P = Gen(tape, is_async=is_async, probe=True, loopcontrols=lc, size=size, env_globals=True, native=sandboxed == 2,
-            debug_ext=DBG[0]).generate()
+            debug_ext=DBG[0], i18n=I18N[0]).generate()
     nr = 3 + tape.draw(4)
     hist = []
     for _ in range(nr):
@@ -331,6 +342,12 @@ def run(tape: Tape) -> Outcome:
         if gc_was:
             gc.enable()
     return out
+
+
+
+from sim.core import guarded as _guarded  # noqa: E402
+
+run = _guarded(run)
 
 
 def unit(index: int, seed: int, tier: str):
